@@ -171,6 +171,23 @@ fn run_op(op: &str, sec: &[u8]) {
             };
             traced!(&mut slot, black_box(&a) == black_box(&b))
         }
+        // whether the two secret operands are the *same* group element is itself secret: the second operand is either
+        // another point or the first one in a different projective representation
+        "ed_add_maybe_equal" | "ed_sub_maybe_equal" | "ed_eq_maybe_equal" | "ris_add_maybe_equal" => {
+            let same = sp1.compress().decompress().expect("own encoding");
+            let b = black_box(if sec[1] & 1 == 1 { same } else { sp2 });
+            match op {
+                "ed_add_maybe_equal" => traced!(&mut slot, black_box(&sp1) + black_box(&b)),
+                "ed_sub_maybe_equal" => traced!(&mut slot, black_box(&sp1) - black_box(&b)),
+                "ed_eq_maybe_equal" => traced!(&mut slot, ct_eq_points(black_box(&sp1), black_box(&b))),
+                _ => {
+                    use curve25519_dalek::ristretto::RistrettoPoint;
+                    let r1 = RistrettoPoint::mul_base(&s1);
+                    let r2 = black_box(if sec[1] & 1 == 1 { r1.compress().decompress().expect("own encoding") } else { RistrettoPoint::mul_base(&s2) });
+                    traced!(&mut slot, black_box(&r1) + black_box(&r2))
+                }
+            }
+        }
         "ed_mul_base" => traced!(&mut slot, EdwardsPoint::mul_base(black_box(&s1))),
         "ed_mul" => traced!(&mut slot, black_box(&pub_point) * black_box(&s1)),
         "ed_mul_secret_point" => traced!(&mut slot, black_box(&sp2) * black_box(&s1)),
